@@ -44,13 +44,18 @@ FIRSTS = [None, ["set", "F1", {"z": 0}]]
 BIG = ["update", "F1", {"big": "x" * 9000, "a": 2}]   # more than one buffer: the temporary file is written in two pieces
 
 
+TIER = ["quick"]
+
+
 def histories(tier="quick"):
     for pn in PRE:
         for first in FIRSTS:
             for op in OPS + (LINK_OPS if pn.startswith("linked") else []):
                 yield [pn, first, op]
+    # a write larger than one buffer: bytes reach the file while the writing code is still in the middle of its work
+    # (thorough: every byte boundary; quick: the effect boundaries, three cuts per piece and the interrupt model)
+    yield ["a1", None, BIG]
     if tier == "thorough":
-        yield ["a1", None, BIG]
         yield ["none", None, BIG]
 
 
@@ -144,7 +149,7 @@ def run_history(C, h, rec, only_state=None):
     tkey = sidecar_key(C, target)
     same_sidecar = [k for k in old["data"] if sidecar_key(C, k) == tkey]
     n_states = 0
-    for label, model in faultfs.crash_states(pre, log, root):
+    for label, model in faultfs.crash_states(pre, log, root, cuts=(op != BIG or TIER[0] == "thorough")):
         n_states += 1
         if only_state is not None and label != only_state:
             continue
@@ -189,6 +194,45 @@ def run_history(C, h, rec, only_state=None):
         rec.case("trivial-state" if trivial else "intermediate-state", not trivial, sample={"hist": h, "state": label})
         for v in viols:
             rec.violation(v["signature"], "crash", {"hist": h, "state": label}, v["observed"], v["expected"])
+    # the other way to die: an interrupt / an error raised in place of the k-th effect, cleanup handlers run (finally, with)
+    if only_state is None or str(only_state).startswith("interrupt"):
+        for k in range(len(log)):
+            label = f"interrupt in place of effect {k} of {len(log)}"
+            if only_state is not None and label != only_state:
+                continue
+            build_pre(C, pn)
+            if first:
+                c15.apply_real(C, first)
+            faultfs.install(root)
+            faultfs.LOG.raise_at = k
+            died = False
+            try:
+                c15.apply_real(C, op)
+            except BaseException:  # noqa
+                died = True
+            finally:
+                faultfs.LOG.raise_at = None
+                faultfs.uninstall()
+            got = reads(C)
+            viols = []
+            for kk in got["data"]:
+                allowed = (old["data"][kk], new["data"][kk]) if (kk in same_sidecar or (op[0] == "create" and kk == target)) else (old["data"][kk],)
+                if got["data"][kk] not in allowed:
+                    viols.append(dict(signature="read-after-interrupted-write-is-neither-old-nor-new" if len(allowed) == 2 else "interrupted-write-changes-data-of-another-sid",
+                                      observed=[kk, got["data"][kk]], expected=list(allowed)))
+                    break
+            if not viols and os.path.exists(c15.Model(C).path(target)) and isinstance(got["data"][target], dict):
+                try:
+                    r2 = WriteToPaths(c0).set(C["E"][target], c=3)
+                    after = reads(C)["data"][target]
+                    want = dict(got["data"][target], c=3)
+                    if r2 is not True or after != want:
+                        viols.append(dict(signature="next-write-after-interrupted-write-wrong", observed=[r2, after], expected=want))
+                except Exception as e:  # noqa
+                    viols.append(dict(signature=f"next-write-after-interrupted-write-raises/{type(e).__name__}", observed=repr(e)[:100], expected="True"))
+            rec.case("interrupted-write" if died else "interrupt-not-reached", died, sample={"hist": h, "state": label})
+            for v in viols:
+                rec.violation(v["signature"], "crash", {"hist": h, "state": label}, v["observed"], v["expected"])
     rec.extra.setdefault("effect_logs", []).append({"hist": [pn, first and first[0], op[0] + ":" + op[1]], "effects": faultfs.describe(log, root), "crash_states": n_states})
     rec.traces += 1
 
@@ -273,6 +317,7 @@ def plan(tier, seed):
 
 def run_shard(sh):
     C = c15.ctx()
+    TIER[0] = sh["tier"]
     rec = Recorder(0, 1, sh["seed"])
     if sh["mode"] == "crash":
         for i, h in enumerate(histories(sh["tier"])):
